@@ -6,7 +6,8 @@
    ascriptions / type inference and number formats are outside it (tested on the implementation
    by tools/props/c17.py only). *)
 From RS Require Import Lib.Tac Lib.Outcome Core.Prog Human.Namer Human.Render Human.Resolve
-  Human.RenderProofs Human.ResolveProofs Human.ConvProofs Human.FinProofs Human.RoundTrip Human.Run.
+  Human.RenderProofs Human.ResolveProofs Human.ConvProofs Human.FinProofs Human.RoundTrip Human.Run
+  Ty.Ty Human.TypeText Human.TypeTextProofs Human.TypeRun.
 Import ListNotations.
 Local Open Scope N_scope.
 
@@ -122,3 +123,119 @@ Definition C17_from_program_statement : Prop :=
     (forall i, nth i ihr None <> None -> shape_of p i <> None) ->
     let d := name_program p ihr cmr in
     wf_ndag d = true /\ NoDup (map (nname d) (post_order d)) /\ path_errs d = [].
+
+
+(* ================================================================== types, token level (phase 2)
+   Models: Human/TypeText.v (Final's Display as the loop over iterator items with its `skipping`
+   state; parse_type / parse_type_postfix / parse_type_atom with Parser::depth and the nesting
+   budget), following /repo at commit c4e3694. *)
+
+(* 7. which types are abbreviated as words: exactly 2^(2^n), n <= 31 (TMR table of 32 entries) *)
+Theorem C17_as_word_spec : forall t n, as_word t = Some n <-> t = word_ty n /\ (n <= 31)%nat.
+Proof. exact as_word_spec. Qed.
+Print Assumptions C17_as_word_spec.
+
+(* 8. the Display loop as written (three items per binary node, indices, skipping over words and
+   over the unit of an option) prints the recursive form print_ty: `2`, `2^(2^n)`, `A?`,
+   parentheses around every sum / product except at the root *)
+Theorem C17_display_eq_print : forall t, display t = print_ty t.
+Proof. exact display_eq_print. Qed.
+Print Assumptions C17_display_eq_print.
+
+(* 9. every printed type is read back by the parser as the same type (and Parser::last_type_depth is
+   its depth), consuming exactly the printed tokens, whatever follows except `?` `+` `*` (follow_ok),
+   provided the type is nested less than MAX_NESTING = 1000 deep, words counting as leaves (small;
+   sufficient: at most 1000 constructors, theorem 12) *)
+Theorem C17_parse_print_ty : forall t rest,
+  small t -> follow_ok rest -> parse_ty (print_ty t ++ rest) = Ok (Some (ast_of t), tdepth t, rest).
+Proof. exact parse_print_ty. Qed.
+Print Assumptions C17_parse_print_ty.
+
+Theorem C17_reify_ast_of : forall t, reify (ast_of t) = t /\ closed (ast_of t) = true.
+Proof. exact reify_ast_of. Qed.
+Print Assumptions C17_reify_ast_of.
+
+(* 10. as the check runs it: the printed type alone in target position *)
+Theorem C17_parse_text_print : forall t, small t -> parse_text (print_ty t) = Ok (Some (ast_of t)).
+Proof. exact parse_text_print. Qed.
+Print Assumptions C17_parse_text_print.
+
+(* 11. print_ty never emits a token outside the type grammar *)
+Theorem C17_print_tokens_ok : forall t top, Forall type_token (print_sub top t).
+Proof. exact print_tokens_ok. Qed.
+Print Assumptions C17_print_tokens_ok.
+
+(* 12. a sufficient condition for `small` *)
+Theorem C17_small_of_size : forall t, nsize t <= 1000 -> small t.
+Proof. exact small_of_size. Qed.
+Print Assumptions C17_small_of_size.
+
+(* 13. the type parser terminates within its fuel on every token list, does not panic, and consumes
+   at least one token when it succeeds *)
+Theorem C17_parse_ty_total : forall ts,
+  match parse_ty ts with
+  | Ok p => (length (r_rest p) < length ts)%nat
+  | Err _ => True
+  | Panic _ => False
+  | OutOfFuel => False
+  end.
+Proof. exact parse_ty_total. Qed.
+Print Assumptions C17_parse_ty_total.
+
+(* 13b. the depth invariant of the parser (commit c4e3694, fix of F-C17l): whatever
+   parse_type_postfix builds at Parser::depth d has the depth Parser::last_type_depth says, and
+   depth + d <= MAX_NESTING unless it is a leaf; hence every type accepted in an arrow is nested
+   less than MAX_NESTING deep, which bounds the recursion of Type::reify / Drop / Clone *)
+Theorem C17_parse_postfix_depth : forall fuel d ts p, parse_postfix fuel d ts = Ok p ->
+  (forall a, r_ty p = Some a -> adepth a = r_dep p) /\ (r_dep p = 0 \/ d + r_dep p <= max_nesting).
+Proof. exact parse_postfix_depth. Qed.
+Print Assumptions C17_parse_postfix_depth.
+
+Theorem C17_parse_depth_bounded : forall ts a c r,
+  parse_ty ts = Ok (Some a, c, r) -> adepth a = c /\ adepth a < max_nesting.
+Proof. exact parse_depth_bounded. Qed.
+Print Assumptions C17_parse_depth_bounded.
+
+(* 14. the bound of `small` is exact (observation, not a finding: the limit is the design of the
+   fixes F-C17i/j/l): the left-nested product of 1001 factors (depth 1000) is refused (`nested too
+   deeply`); with 1000 factors (depth 999) it is read back *)
+Theorem C17_parse_print_ty_refuted_deep :
+  exists t, tdepth t = max_nesting /\ parse_ty (print_ty t) = Err ENest.
+Proof. exact parse_print_ty_refuted_deep. Qed.
+Print Assumptions C17_parse_print_ty_refuted_deep.
+
+(* 15. F-C17k (fixed, 2320110): the printer with `1 << n` on an i32 printed 2^(2^31) as a text the
+   lexer rejects *)
+Theorem C17_print_i32_refuted_w31 :
+  exists t, print_ty_i32 t = [TBad] /\ (forall rest, parse_text (print_ty_i32 t ++ rest) = Err ELex) /\
+            parse_text (print_ty_i32 t) <> Ok (Some (ast_of t)).
+Proof. exact print_i32_refuted_w31. Qed.
+Print Assumptions C17_print_i32_refuted_w31.
+
+(* 16. F-C17j (fixed, 559e184): the parser without a budget on its two loops accepted `1` followed
+   by k `?` for every k and built a type nested k deep (Type::reify recursed through it) *)
+Theorem C17_parse_nobudget_depth_refuted :
+  forall k, exists a c, parse_ty_nobudget (TOne :: repeat TQuestion k) = Ok (Some a, c, []) /\ adepth a = N.of_nat k.
+Proof. exact parse_nobudget_depth_refuted. Qed.
+Print Assumptions C17_parse_nobudget_depth_refuted.
+
+(* 17. F-C17l (fixed, c4e3694): the budget of 559e184 was per loop; the depth of the built type was
+   not bounded by MAX_NESTING (witness of depth 2994; 130 layers overflowed the stack) *)
+Theorem C17_parse_perloop_depth_refuted :
+  exists ts a c, parse_ty_perloop ts = Ok (Some a, c, []) /\ max_nesting < adepth a.
+Proof. exact parse_perloop_depth_refuted. Qed.
+Print Assumptions C17_parse_perloop_depth_refuted.
+
+(* 18. the compressed evaluation used by the correspondence check (words as one node) computes
+   the model *)
+Theorem C17_print_a_reify : forall a top, pow_ok a = true -> print_a top a = print_sub top (reify a).
+Proof. exact print_a_reify. Qed.
+Print Assumptions C17_print_a_reify.
+
+Theorem C17_show_a_reify : forall a, pow_ok a = true -> show_a a = show_ty (reify a).
+Proof. exact show_a_reify. Qed.
+Print Assumptions C17_show_a_reify.
+
+(* the hypotheses are satisfiable *)
+Example C17_ex_small : small (Sum (Prod (Sum One Bit) (word_ty 1)) One) /\ follow_ok [TSym 7; TOther 0].
+Proof. split; [apply small_of_size; cbn; lia|exact I]. Qed.
